@@ -210,6 +210,9 @@ def gen_case(seed, tier, index=0):
             st = mp(argv)
             if cwd:
                 st["cwd"] = cwd
+            if git and rng.chance(0.12):
+                # Git answers more slowly than any deadline the tool may have set for it (huge work tree, cold cache)
+                st["slow_git"] = rng.pick(["ls-files", "status", "rev-parse"])
             steps.append(st)
         elif k == "annotate":
             names = rng.sample(ann_files, min(len(ann_files), rng.randint(1, 3)))
@@ -255,7 +258,13 @@ def gen_case(seed, tier, index=0):
             st["net"] = {i: rng.pick([{"kind": "ok", "text": f"text {i}\n"}, {"kind": "ok", "text": f"text {i}\n"}, {"kind": "http", "code": 404}, {"kind": "urlerror"}]) for i in G.VALID}
             steps.append(st)
         elif k == "spdx-o":
-            steps.append(mp(["spdx", "-o", rng.pick(["out.spdx", "docs/bom.spdx.json", "notspdx.txt"])]))
+            target = rng.pick(["out.spdx", "docs/bom.spdx.json", "notspdx.txt"])
+            if rng.chance(0.3):
+                # the project stops being loadable (somebody breaks REUSE.toml) and the output names a file that exists:
+                # the command fails and must not have emptied it
+                steps.append({"user": {"op": "write", "path": "REUSE.toml", "content": "version = 1\n[[annotations]\npath = \n"}})
+                target = rng.pick([t for t in ("src/a.py", "docs/d.md", "srclic/LicenseRef-Custom.txt") if any(f["path"] == t for f in files)] or [target])
+            steps.append(mp(["spdx", "-o", target]))
         else:
             steps.append(mp(rng.pick([["frobnicate"], ["lint", "--nope"], ["annotate", "src/a.py"], ["annotate", "-c", "X", "nonexistent.py"],
                                       ["annotate", "-c", "X", "--single-line", "--multi-line", "src/a.py"], ["lint-file", "/etc/passwd"],
@@ -340,7 +349,8 @@ def oracle(case, results):
         if helpish or cmd in ("lint", "lint-file", "supported-licenses", "--help", "--version", "frobnicate"):
             pass
         elif cmd == "spdx":
-            if "-o" in argv:
+            if "-o" in argv and rec.get("exit") != 2:
+                # a run that is refused (usage or configuration error) has nothing to put there
                 allowed.add(posixpath.normpath(argv[argv.index("-o") + 1]))
         elif cmd == "convert-dep5":
             allowed |= {"REUSE.toml", ".reuse/dep5"}
